@@ -605,7 +605,7 @@ func c18Emission(fn *ssa.Function) *c18Emit {
 			e.hasSkip = true
 		case strings.Contains(s, "rangeindex"):
 			// iterating the attributes
-		case s == "len("+recv+".groups) > 0":
+		case s == "len("+recv+"."+slogGroups+") > 0":
 			// optional: appending no groups is a no-op
 		default:
 			cell, phi := c18FlagOf(a.Cond)
@@ -699,7 +699,7 @@ func c18Emission(fn *ssa.Function) *c18Emit {
 			e.once += "after the emission the flag becomes " + dv + "; "
 		case dv == pend:
 			// initialised to "pending"
-		case e.pendingPol && dv == "(len("+recv+".groups) > 0)":
+		case e.pendingPol && dv == "(len("+recv+"."+slogGroups+") > 0)":
 			// initialised to "there are groups pending"
 		default:
 			e.once += "the flag is also set to " + dv + " off the emitting path; "
@@ -801,7 +801,7 @@ func c18Carries(c *Ctx, rule string, fn *ssa.Function) {
 	var lost []string
 	for i := 0; st != nil && i < st.NumFields(); i++ {
 		f := st.Field(i).Name()
-		if f == "core" || f == "groups" {
+		if f == "core" || f == slogGroups {
 			continue
 		}
 		if b, ok := bf[f]; !ok || b.Desc != h.Name()+"."+f {
@@ -858,12 +858,12 @@ func c18EmitProtocol(c *Ctx, rule string) {
 				}
 			}
 			ok, over, why := LoopVisitsAll(f, ns)
-			if !strings.HasSuffix(over, ".groups") {
+			if !strings.HasSuffix(over, "."+slogGroups) {
 				// the groups handed in by the callers
 				for _, p := range f.Params {
 					if p.Name() == over {
 						Bound(func() { over = Desc(p) })
-						if !strings.HasSuffix(over, ".groups") {
+						if !strings.HasSuffix(over, "."+slogGroups) {
 							// every call site passes the receiver's pending groups (possibly read into a local first)
 							all := len(sitesOf(f)) > 0
 							for _, site := range sitesOf(f) {
@@ -880,20 +880,20 @@ func c18EmitProtocol(c *Ctx, rule string) {
 												}
 											}
 										}
-										if !strings.HasSuffix(d, ".groups") {
+										if !strings.HasSuffix(d, "."+slogGroups) {
 											all = false
 										}
 									}
 								}
 							}
 							if all {
-								over = "h.groups"
+								over = "h." + slogGroups
 							}
 						}
 					}
 				}
 			}
-			c.Check(ok && strings.HasSuffix(over, ".groups"), rule, f.String(), "emits-every-group", f.Pos(), "the emitter appends one Namespace field for every pending group, in order, no early exit (ranges over %s%s)", over, why)
+			c.Check(ok && strings.HasSuffix(over, "."+slogGroups), rule, f.String(), "emits-every-group", f.Pos(), "the emitter appends one Namespace field for every pending group, in order, no early exit (ranges over %s%s)", over, why)
 		}
 		for _, fn := range []*ssa.Function{hd, wa} {
 			recv := fn.Params[0]
@@ -923,7 +923,7 @@ func c18EmitProtocol(c *Ctx, rule string) {
 							}
 						}
 					case *ssa.Store:
-						if fa, ok := x.Addr.(*ssa.FieldAddr); ok && fieldName(fa.X.Type(), fa.Field) == "groups" {
+						if fa, ok := x.Addr.(*ssa.FieldAddr); ok && fieldName(fa.X.Type(), fa.Field) == slogGroups {
 							base := Strip(fa.X)
 							for k := 0; k < 6; k++ {
 								if nx := st.Step(base); nx != nil {
@@ -939,7 +939,7 @@ func c18EmitProtocol(c *Ctx, rule string) {
 							// keeping the parent's pending groups in a freshly built handler is no event
 							v := x.Val
 							for k := 0; k < 8; k++ {
-								if ownedBy(v, recv, 0) || st.Desc(v) == rn+".groups" {
+								if ownedBy(v, recv, 0) || st.Desc(v) == rn+"."+slogGroups {
 									return ""
 								}
 								nx := st.Step(v)
@@ -1006,8 +1006,25 @@ func c18EmitProtocol(c *Ctx, rule string) {
 						}
 						a := lc.Call.Args[0]
 						for k := 0; k < 8; k++ {
-							if st.Desc(a) == rn+".groups" {
+							if st.Desc(a) == rn+"."+slogGroups {
 								return true
+							}
+							// the groups field of something that on this path IS the receiver (a handler kept in a
+							// local struct next to the fields being collected)
+							if ld, isLd := a.(*ssa.UnOp); isLd && ld.Op == token.MUL {
+								if fa, isFA := ld.X.(*ssa.FieldAddr); isFA && fieldName(fa.X.Type(), fa.Field) == slogGroups {
+									b := Strip(fa.X)
+									for j := 0; j < 8; j++ {
+										nx := st.Step(b)
+										if nx == nil {
+											break
+										}
+										b = Strip(nx)
+									}
+									if b == ssa.Value(recv) {
+										return true
+									}
+								}
 							}
 							nx := st.Step(a)
 							if nx == nil {
@@ -1024,15 +1041,15 @@ func c18EmitProtocol(c *Ctx, rule string) {
 						}
 					}
 					if lenOfGroups(bo.X) {
-						x = "len(" + rn + ".groups)"
+						x = "len(" + rn + "." + slogGroups + ")"
 					}
 					if lenOfGroups(bo.Y) {
-						y = "len(" + rn + ".groups)"
+						y = "len(" + rn + "." + slogGroups + ")"
 					}
-					if y == "len("+rn+".groups)" && x == "0" {
+					if y == "len("+rn+"."+slogGroups+")" && x == "0" {
 						x, y, op = y, x, swapOp(op)
 					}
-					if x == "len("+rn+".groups)" && y == "0" {
+					if x == "len("+rn+"."+slogGroups+")" && y == "0" {
 						switch op {
 						case token.GTR, token.NEQ:
 							return tf("pending", pol)
@@ -1222,4 +1239,23 @@ func cDelegatesOnly(c *Ctx, rule string, fn *ssa.Function, slot, what string, al
 		},
 	})
 	c.Check(!trunc && len(seqs) > 0 && len(direct) == 0 && nDeleg > 0, rule, fn.String(), slot, fn.Pos(), "%s; direct uses of the encoder: %v", what, uniqSorted(direct))
+}
+
+// slogGroups: the name of the field of zapslog.Handler that holds the groups opened by WithGroup and not yet emitted
+// (its one []string field); set by c18GroupsField.
+var slogGroups = "groups"
+
+func c18GroupsField(c *Ctx) {
+	slogGroups = "groups"
+	h := c.Named(SlogPath, "Handler")
+	if h == nil {
+		return
+	}
+	if st, ok := h.Underlying().(*types.Struct); ok {
+		for i := 0; i < st.NumFields(); i++ {
+			if TypeName(st.Field(i).Type()) == "[]string" {
+				slogGroups = st.Field(i).Name()
+			}
+		}
+	}
 }
